@@ -46,7 +46,21 @@ def build_native(prop, spec, outdir):
     root = repo_root()
     src = os.path.join(R.VERIF, 'replay', prop, spec['prog'] + '.cpp')
     exe = os.path.join(outdir, 'replay-' + spec['prog'])
-    cmd = ['g++', '-std=c++17', '-O1', '-g', '-DGALOIS_VERIF_REPLAY',
+    pre_inc = []
+    # hooked headers: a copy of a REAL header from the working tree with one
+    # call redirected (exact text, must occur once) so that the replay can
+    # drive e.g. a thread schedule; everything else in the header is unchanged
+    for rel, old, new in spec.get('hook_headers', []):
+        text = open(os.path.join(root, rel)).read()
+        if text.count(old) != 1:
+            return None, 'hook_headers: %r occurs %d times in %s' % (old, text.count(old), rel)
+        incroot = os.path.join(outdir, 'hooked-inc')
+        dst = os.path.join(incroot, rel.split('include/', 1)[1])
+        os.makedirs(os.path.dirname(dst), exist_ok=True)
+        with open(dst, 'w') as f:
+            f.write(text.replace(old, new))
+        pre_inc = ['-I' + incroot]
+    cmd = ['g++', '-std=c++17', '-O1', '-g', '-DGALOIS_VERIF_REPLAY'] + pre_inc + [
            '-I' + os.path.join(root, 'libgalois/include'),
            '-I' + os.path.join(root, '_build/libgalois/include'),
            '-I' + os.path.join(root, 'libsupport/include'),
